@@ -302,3 +302,16 @@ Proof.
   rewrite <- Hb at 1. rewrite apply_chunks_zeroed by assumption. cbn [bind]. rewrite Hb.
   f_equal. f_equal. f_equal. f_equal. unfold zlen. rewrite Nat2Z.id. reflexivity.
 Qed.
+
+(* the fixed-capacity callers (RtData::reply/broadcast: 8192-byte stack buffer;
+   ThreadLink::write/writeArray: MaxMsg) are instances of [amessage_spec] *)
+Corollary amessage_fixed_capacity cap a tags args buf :
+  args_wf tags args -> zlen buf = cap ->
+  let enc := enc_spec a tags args in
+  amessage (Some buf) a tags args =
+  if cap <? zlen enc then Ok (0, Some (zeros cap))
+  else Ok (zlen enc, Some (enc ++ skipn (length enc) buf)).
+Proof.
+  intros Hwf Hc enc. destruct (amessage_spec a tags args Hwf) as [_ H].
+  rewrite (H buf). fold enc. rewrite Hc. reflexivity.
+Qed.
